@@ -36,6 +36,7 @@ func c08(c *Ctx) {
 	// trimming only removes idle, non-primary addresses (shared rule)
 	c03R2(c)
 	c03R6(c)
+	c08R13(c)
 	ruleFreshMergeTarget(c, "C16.R7", c.P.FuncsInPkg(clientPkg), "the option mergers of the cloud client (ApplyCreateNetworkInterface …)")
 	ruleKeyedByOwnField(c, "C08.R12", c.P.FuncsInPkg(nodeCtlPkg), apiPkg, "IP", "IP", "the address maps of the node record (every reader, the release and the final delete look an address up by its IP)")
 }
@@ -984,4 +985,21 @@ func c08R11(c *Ctx) {
 	la, lb := lits(a), lits(b)
 	c.Check(len(la) > 0 && strings.Join(la, " ∧ ") == strings.Join(lb, " ∧ "), "C08.R11", "getAllocatable and IdlesWithAvailable test an address alike", p.Pos(a.Decl), a.Key(),
 		"the same set of tests on the address", "demand side: {"+strings.Join(la, ", ")+"}  trim side: {"+strings.Join(lb, ", ")+"}")
+}
+
+// R13: the delete adapter does not answer for the cloud. createENI's roll-back decides "forget the
+// interface" or "record it as Deleting" from the error of DeleteNetworkInterface: with the SDK call's
+// error non-nil, the adapter returns a non-nil error (no error code is read as "already gone").
+func c08R13(c *Ctx) {
+	p := c.P
+	c.Rule("C08.R13", "OpenAPI.DeleteNetworkInterface: a refused delete is reported — with the SDK call's error non-nil every exit returns a non-nil error")
+	fn := p.Func(clientPkg, "OpenAPI.DeleteNetworkInterface")
+	if fn == nil {
+		c.Unres("C08.R13", "OpenAPI.DeleteNetworkInterface", "not found")
+		return
+	}
+	n := stickyErrors(c, "C08.R13", fn, func(f *types.Func) bool {
+		return f.Name() == "DeleteNetworkInterface" && f.Pkg() != nil && strings.Contains(f.Pkg().Path(), "alibaba-cloud-sdk-go")
+	}, "cloud call")
+	c.Floor("C08.R13", "SDK delete calls in the adapter", 1, n)
 }
